@@ -20,6 +20,7 @@ import LA.Drive.Api
 import LA.Drive.Acl
 import LA.Drive.Thr
 import LA.Drive.ClientWrite
+import LA.Drive.Xtr
 open LA
 
 def engines : List (String × Engine) := [
@@ -43,7 +44,10 @@ def engines : List (String × Engine) := [
   ("acl", LA.Acl.engine),
   ("thr", LA.Thr.engine),
   ("cw", LA.WC.engine),
-  ("det", LA.WC.engine)
+  ("det", LA.WC.engine),
+  ("xtr", LA.Xtr.engine),
+  ("xtrtar", LA.Xtr.engine),
+  ("pathclean", LA.Xtr.enginePath)
 ]
 
 partial def loop (e : Engine) (h : IO.FS.Stream) (out : IO.FS.Stream) (s : e.σ) : IO Unit := do
